@@ -155,8 +155,10 @@ Itemize(S, p, args, closed) ==
 \* The outcome of struct S (at level lvl) on args under policy p: the errors of all offending
 \* items and of a missing required field / command (any of them may be the one reported - the
 \* property does not order them), else the one value.
-RECURSIVE Det(_, _, _, _)
-Det(S, p, lvl, args) ==
+\* (raw = TRUE returns the value TOKENS instead of the converted values: the token assignment
+\* whose rendering the line is, used by CliGen!InGrammar)
+RECURSIVE DetX(_, _, _, _, _)
+DetX(S, p, lvl, args, raw) ==
     LET items == Itemize(S, p, args, FALSE)
         n     == Len(items)
         pidx  == PosIdx(S)
@@ -171,7 +173,7 @@ Det(S, p, lvl, args) ==
         InnerOf(j) ==
             LET tg == SubOf(S).tags[items[j].i]
             IN IF tg.inner = <<>> THEN {OkOut(NoVal)}
-               ELSE Det(tg.inner[1], p, Append(lvl, items[j].i), items[j].r)
+               ELSE DetX(tg.inner[1], p, Append(lvl, items[j].i), items[j].r, raw)
         Occ(i) == SelectSeq([j \in 1..n |-> j], LAMBDA j : Assigns(j) /\ FieldOfItem(j) = i)
         SubOcc == SelectSeq([j \in 1..n |-> j], LAMBDA j : items[j].k = "sub")
         DupErr(j) ==
@@ -195,7 +197,7 @@ Det(S, p, lvl, args) ==
         Missing ==
             \/ \E i \in 1..NF(S) : S.fields[i].pkg = "required" /\ S.fields[i].kind # "flag" /\ Occ(i) = <<>>
             \/ HasSub(S) /\ ~SubOf(S).opt /\ SubOcc = <<>>
-        ValAt(i, j) == Conv(S.fields[i], items[j].a).v
+        ValAt(i, j) == IF raw THEN items[j].a ELSE Conv(S.fields[i], items[j].a).v
         FieldVal(i) ==
             LET f == S.fields[i]  occ == Occ(i) IN
             IF f.kind = "flag" THEN Len(occ) > 0
@@ -210,6 +212,8 @@ Det(S, p, lvl, args) ==
     IN IF Errs # {} \/ Missing
        THEN {ErrOut(e[1], e[2]) : e \in Errs} \cup (IF Missing THEN {ErrOut("MissingRequired", lvl)} ELSE {})
        ELSE {OkOut([f |-> Fs, sc |-> SubVal])}
+
+Det(S, p, lvl, args) == DetX(S, p, lvl, args, FALSE)
 
 \* Parse(shape, args) as the set of admissible outcomes: the definition
 AdmissibleFull(S, args) == UNION {Det(S, p, <<>>, args) : p \in Policies(S)}
